@@ -29,16 +29,7 @@ _hd = None
 
 
 def build_hirdump():
-    d = os.path.join(K.VERIF, "engines", "hirdump")
-    shutil.copy(os.path.join(K.REPO, "Cargo.lock"), os.path.join(d, "Cargo.lock"))
-    t0 = time.time()
-    r = subprocess.run(["cargo", "build", "--offline"], cwd=d, env=K.env_with({"RUSTFLAGS": "-Awarnings"}),
-                       stdout=subprocess.PIPE, stderr=subprocess.STDOUT, text=True)
-    if r.returncode != 0:
-        print(r.stdout[-3000:])
-        raise K.Inconclusive("cannot build engines/hirdump")
-    K.log("[build] hirdump (regex-syntax HIR + real Matcher runner) built in %.1fs" % (time.time() - t0))
-    return os.path.join(d, "target", "debug", "hirdump")
+    return K.build_helper("hirdump", "(regex-syntax HIR + real Matcher runner) ")
 
 
 class HirDump:
